@@ -222,6 +222,74 @@ Arguments builder_run {X M}.
 Arguments executor_run {X M}.
 Arguments run_parallel {X M}.
 
+(* ---------- the clock, derived instead of given ----------
+   The wrappers above take the clock reading `elapsed` as an oracle input.  What the clock must
+   AT LEAST read follows from the run itself: with_timeout's `Instant::now()` is taken before the
+   (whole) operation and `start.elapsed()` is read after it, so everything the operation does in
+   between counts - for the retry+timeout composition `with_timeout(t, || retry_with_backoff(..))`
+   that is every attempt AND every back-off sleep between the attempts.
+   `tpm` = clock ticks per millisecond (the sleeps are in ms), `busy i` = ticks spent inside call
+   number i of the closure, `extra` = everything else (scheduling, oversleeping: thread::sleep(d)
+   sleeps at least d), any value >= 0. *)
+Definition nsum (l : list N) : N := fold_right N.add 0%N l.
+
+(* ticks spent inside calls idx, idx+1, .., idx+n-1 *)
+Fixpoint busy_sum (busy : nat -> N) (idx n : nat) : N :=
+  match n with
+  | O => 0%N
+  | S n' => (busy idx + busy_sum busy (S idx) n')%N
+  end.
+
+Section Clock.
+  Variables X M : Type.
+
+  (* the least the clock has advanced over a run: the requested sleeps and the calls made *)
+  Definition run_clock (tpm : N) (busy : nat -> N) (idx : nat) (r : run X M) : N :=
+    (tpm * nsum (run_sleeps r) + busy_sum busy idx (run_calls r))%N.
+
+  (* close the oracle: `f elapsed` is a wrapper as a function of the clock reading; the calls and
+     sleeps of every wrapper are independent of the reading (Proofs/CloudOpsClock.v,
+     builder_shape_clock_free), so the reading can be computed from `f 0` *)
+  Definition timed (tpm : N) (busy : nat -> N) (extra : N) (idx : nat) (f : N -> run X M)
+    : run X M :=
+    f (run_clock tpm busy idx (f 0%N) + extra)%N.
+
+  (* utils::with_timeout(timeout, op) on one call *)
+  Definition timed_with_timeout (tmsg : M) (timeout : N) (busy : nat -> N) (extra : N)
+             (op : nat -> res X M) (idx : nat) : run X M :=
+    mk_run (with_timeout tmsg timeout (busy idx + extra)%N (Done (op idx))) 1 [].
+
+  Definition timed_retry (tmsg : M) (c : retry_cfg) (timeout tpm : N) (busy : nat -> N)
+             (extra : N) (op : nat -> res X M) (idx : nat) : run X M :=
+    timed tpm busy extra idx (fun el => run_with_timeout_and_retry tmsg c timeout el op idx).
+  Definition timed_cloud_io_retry (tmsg : M) (c : retry_cfg) (timeout tpm : N) (busy : nat -> N)
+             (extra : N) (op : nat -> res X M) (idx : nat) : run X M :=
+    timed tpm busy extra idx
+          (fun el => run_cloud_io_with_retry_and_timeout tmsg c timeout el op idx).
+  Definition timed_builder_execute (tmsg : M) (rc : option retry_cfg) (timeout : option N)
+             (tpm : N) (busy : nat -> N) (extra : N) (op : nat -> res X M) (idx : nat) : run X M :=
+    timed tpm busy extra idx (fun el => builder_execute tmsg rc timeout el op idx).
+  Definition timed_executor_execute (tmsg : M) (rc : option retry_cfg) (timeout : option N)
+             (tpm : N) (busy : nat -> N) (extra : N) (op : nat -> res X M) (idx : nat) : run X M :=
+    timed tpm busy extra idx (fun el => executor_execute tmsg rc timeout el op idx).
+  Definition timed_builder_run (tmsg : M) (ss : list setter) (tpm : N) (busy : nat -> N)
+             (extra : N) (op : nat -> res X M) (idx : nat) : run X M :=
+    timed tpm busy extra idx (fun el => builder_run tmsg ss el op idx).
+  Definition timed_executor_run (tmsg : M) (ss : list setter) (tpm : N) (busy : nat -> N)
+             (extra : N) (op : nat -> res X M) (idx : nat) : run X M :=
+    timed tpm busy extra idx (fun el => executor_run tmsg ss el op idx).
+End Clock.
+
+Arguments run_clock {X M}.
+Arguments timed {X M}.
+Arguments timed_with_timeout {X M}.
+Arguments timed_retry {X M}.
+Arguments timed_cloud_io_retry {X M}.
+Arguments timed_builder_execute {X M}.
+Arguments timed_executor_execute {X M}.
+Arguments timed_builder_run {X M}.
+Arguments timed_executor_run {X M}.
+
 Section Batch.
   Variables A R M : Type.
 
